@@ -328,7 +328,7 @@ func ruleStoredPolicyIsPodPolicy(c *Ctx, rule string) {
 		if fn.Pkg.Pkg.Path() != modPath+spPkg {
 			continue
 		}
-		for _, call := range calls(fn, "IPAM).AllocateSpecificIP", "IPAM).AllocateInSubnet", "IPAM).AllocateInSubnetWithKey", "IPAM).AllocateInSubnetsAndIPRange", "IPAM).UpdateAttr") {
+		for _, call := range callsLocal(fn, "IPAM).AllocateSpecificIP", "IPAM).AllocateInSubnet", "IPAM).AllocateInSubnetWithKey", "IPAM).AllocateInSubnetsAndIPRange", "IPAM).UpdateAttr") {
 			args := callArgs(call)
 			attr := args[len(args)-1]
 			n++
